@@ -287,7 +287,7 @@ fn gen_script(rng: &mut Rng, len: usize, flavour: u64) -> String {
         } else if roll < 62 {
             let (mid, kind) = pick_mid(rng, &g);
             g.toks += 1;
-            let k = if kind == "sd" { *rng.pick(&["e", "e", "e", "r", "i", "d", "d", "o"]) } else if kind == "sa" { *rng.pick(&["e", "e", "e", "d", "d", "o"]) } else { *rng.pick(&["x", "x", "x", "o", "d"]) };
+            let k = if kind == "sd" { *rng.pick(&["e", "e", "e", "r", "i", "d", "d", "o"]) } else if kind == "sa" { *rng.pick(&["e", "e", "e", "r", "i", "d", "d", "o"]) } else { *rng.pick(&["x", "x", "x", "o", "d"]) };
             s.push(format!("R:{}:{}:{}", mid, k, g.toks));
         } else if roll < 66 { s.push(format!("A:{}", *rng.pick(&[1u64, 999, 1000, 1001, 4000, 5000]))); }
         else if roll < 70 {
@@ -297,7 +297,7 @@ fn gen_script(rng: &mut Rng, len: usize, flavour: u64) -> String {
             for j in 0..k { g.toks += 1;
                 if j == unsol_at { parts.push(format!("{}.x.{}", *rng.pick(&[0i64, 0, 99]), g.toks)); continue; }
                 let (mid, kind) = pick_mid(rng, &g);
-                let kk = if kind == "sd" { *rng.pick(&["e", "e", "r", "i", "d"]) } else if kind == "sa" { *rng.pick(&["e", "e", "d"]) } else { "x" };
+                let kk = if kind == "sd" { *rng.pick(&["e", "e", "r", "i", "d"]) } else if kind == "sa" { *rng.pick(&["e", "e", "r", "i", "d"]) } else { "x" };
                 parts.push(format!("{}.{}.{}", mid, kk, g.toks)); }
             s.push(format!("M:{}:{}", *rng.pick(&[0u64, 0, 0, 17, 50, 83]), parts.join(",")));
         }
